@@ -291,6 +291,14 @@ KNOWN_WHATS = (
 )
 
 
+def is_believable_site(case, site) -> bool:
+    """the fault landed as a 404 on the GET of a deleteIfExists Function whose object was in the cluster"""
+    if site["method"] != "GET" or site["kind"] != 404 or not site.get("present"):
+        return False
+    f = fn_of_resource(case, site["name"])
+    return bool(f) and f["rf"]["mode"] == "delete"
+
+
 def replay_sequence(case, seq):
     """(violations, fault sites) of one fault sequence, the oracle alone"""
     info = {"sites": []}
@@ -300,26 +308,23 @@ def replay_sequence(case, seq):
 
 
 def in_known_class(vcase) -> bool:
-    """KNOWN FINDING `believable-404-on-delete-if-exists` (KNOWN_FINDINGS.txt): the failing input is ONE faulty pass
-    whose fault is a 404 on the GET of a deleteIfExists Function while the object is in the cluster, and everything the
-    oracle reports is the missing containment of that pass.  Nothing broader: a 404 on any other call, any other kind on
-    that GET, the object absent, a second faulty pass, or any other complaint (not returning, running late, not
-    recovering) is an ordinary violation."""
+    """KNOWN FINDING `believable-404-on-delete-if-exists` (KNOWN_FINDINGS.txt): EVERY faulty pass of the failing history
+    is a believable 404 — kind 404 landing on the GET of a deleteIfExists Function whose object is in the cluster at that
+    moment — and everything the oracle reports is the missing containment of such a pass.  Nothing broader: any other
+    kind or any other call anywhere in the history, the object absent, a fault that was not reached, or any other
+    complaint (not returning, running late, not recovering once the faults stop) is an ordinary violation."""
     try:
         case, seq = vcase.get("case"), vcase.get("faults")
-        if not isinstance(case, dict) or not isinstance(seq, dict) or len(seq.get("faults") or []) != 1:
+        if not isinstance(case, dict) or not isinstance(seq, dict) or not (seq.get("faults") or []):
             return False
-        if seq["faults"][0][1] != 404:
+        if any(k != 404 for _, k in seq["faults"]):
             return False
         found, sites = replay_sequence(case, seq)
-        if not found or len(sites) != 1 or sites[0] is None:
+        if not found or len(sites) != len(seq["faults"]):
             return False
-        site = sites[0]
-        if site["method"] != "GET" or site["kind"] != 404 or not site["present"]:
-            return False
-        f = fn_of_resource(case, site["name"])
-        if not f or f["rf"]["mode"] != "delete":
-            return False
+        for site in sites:
+            if site is None or not is_believable_site(case, site):
+                return False
         return all(any(re.search(p, what) for p in KNOWN_WHATS) for _, what in found)
     except Infra:
         raise
@@ -532,13 +537,15 @@ def sweep_case(ck, drv, r, case, tier, tag, only=None, info=None):
     else:
         seqs, second = list(only), set()
     violations, reqs, pending = [], [], []
+    landed = [None]      # where the most recent fault landed
 
     def faulty(objects, clean_after, i, kind, seq):
         obs = run_pass(prep, objects, faults={i: kind})
         ck.evaluated()
         site = fault_site(obs)
+        landed[0] = None if site is None else {**site, "present": obj_key(site["name"]) in objects}
         if info is not None:
-            info["sites"].append(None if site is None else {**site, "present": obj_key(site["name"]) in objects})
+            info["sites"].append(landed[0])
         if site is not None:
             ck.count(f"fault:{site['method']}:{kind}")
             ck.nontriv(f"{site['method']}:{kind}:{'nested' if site['path'] and len(site['path']) > 1 else 'top'}:"
@@ -581,6 +588,16 @@ def sweep_case(ck, drv, r, case, tier, tag, only=None, info=None):
                 clean_after = rec.clean_pass(objects)["cluster"].objects
             obs = faulty(objects, clean_after, i, kind, {"start": k, "faults": seq["faults"][:j + 1]})
             objects = obs["cluster"].objects
+        if (only is None and obs is not None and not obs.get("raised") and len(seq["faults"]) == 1
+                and landed[0] is not None and is_believable_site(case, landed[0])):
+            # the recorded finding, twice in a row: the object is still there, the next pass is told 404 again
+            probe = rec.clean_pass(objects)
+            again = next((e["i"] for e in probe["cluster"].log
+                          if e["method"] == "GET" and e["name"] == landed[0]["name"]), None)
+            if again is not None:
+                faulty(objects, probe["cluster"].objects, again, 404,
+                       {"start": k, "faults": seq["faults"] + [[again, 404]]})
+                ck.count("believable-404-twice")
         if n in second and obs is not None and not obs.get("raised"):
             probe = rec.clean_pass(objects)
             if probe["log"]:
